@@ -57,6 +57,7 @@ class Ctx:
         self.backend_s = {'z3': 0.0, 'cvc5': 0.0, 'z3-4.8.12': 0.0}
         self.notes = []
         self.cross_checked = 0
+        self.queue = []
 
     # ---- obligations ---------------------------------------------------------------------------------
     def new(self, oid, kind, function, text=''):
@@ -71,7 +72,9 @@ class Ctx:
         return o
 
     def prove(self, oid, kind, function, path: Path, goal, text='', extra_index=(), witness=None):
-        """Obligation  pc(path) => goal.  `witness(model)` concretises a counter-model for native replay."""
+        """Obligation  pc(path) => goal.  `witness(model)` concretises a counter-model for native replay.
+        The query is queued; discharge_all() runs all queued queries in forked worker processes (hard
+        time limit, crash isolation, 16-way parallel)."""
         o = self.new(oid, kind, function, text)
         o._witness = witness
         if goal is True:
@@ -80,48 +83,193 @@ class Ctx:
             goal = z3.BoolVal(False)
         for t in extra_index:
             path.add_index(t)
-        t0 = time.time()
         neg = z3.Not(goal)
-        path.timeout_ms = self.timeout_ms
+        path._extra_for_lemmas = [neg]
         path._solver = None
-        try:
-            r = path.check(neg)
-        except z3.Z3Exception as e:
-            o.seconds = time.time() - t0
-            return self.settle(o, ERROR, 'z3', f'z3 exception: {e}')
-        o.seconds = time.time() - t0
-        self.backend_s['z3'] += o.seconds
-        try:
-            o.smt_size = len(path._solver.sexpr())
-        except Exception:
-            pass
-        if r == z3.unsat:
-            return self.settle(o, PROVED, 'z3')
-        if r == z3.sat:
-            m = path.model(neg)
-            if witness is not None and m is not None:
-                try:
-                    o.replay = witness(m)
-                except Exception as e:  # noqa
-                    o.replay = None
-                    o.detail = f'witness extraction failed: {type(e).__name__}: {e}'
-            return self.settle(o, REFUTED, 'z3', model=model_to_dict(m), detail='counter-model found')
-        # unknown: second opinion
-        r2, be, secs, txt = self.second_opinion(path, neg)
-        o.seconds += secs
-        if r2 == 'unsat':
-            return self.settle(o, PROVED, be)
-        if r2 == 'sat':
-            return self.settle(o, REFUTED, be, detail='counter-model found by second solver\n' + txt[:400])
-        return self.settle(o, UNDECIDED, 'z3', detail=f'z3: unknown ({path._solver.reason_unknown()}); '
-                                                       f'second solver: {r2}')
+        path._sync()
+        assertions = list(path._solver.assertions())
+        # lemma instances for predicates that occur only in the goal
+        from . import ops as _ops
+        done = set()
+        for _ in range(4):
+            new = _ops.theory_lemmas(assertions + [neg], done)
+            if not new:
+                break
+            assertions.extend(new)
+        dump = os.environ.get('PYVC_DUMP')
+        if dump and dump in o.id:
+            print('=== DUMP', o.id)
+            print('GOAL:', goal)
+            for a_ in assertions:
+                print('  A:', a_)
+            print('  hyps:', len(path.hyps), 'index terms:', path.index_terms)
+            if os.environ.get('PYVC_DUMP_SMT'):
+                s_ = z3.Solver()
+                for a_ in assertions:
+                    s_.add(a_)
+                s_.add(neg)
+                open(os.environ['PYVC_DUMP_SMT'], 'w').write(s_.to_smt2())
+            raise SystemExit(0)
+        o._query = (assertions, neg, 'prove')
+        self.queue.append(o)
+        return o
 
-    def second_opinion(self, path, neg):
+    def expect_refuted(self, oid, function, path, goal, text=''):
+        """Canary: a deliberately false statement must be refuted, otherwise the engine is vacuous."""
+        o = self.new(oid, 'canary', function, text)
+        neg = z3.Not(goal) if goal is not True else z3.BoolVal(False)
+        path._extra_for_lemmas = [neg]
+        path._solver = None
+        path._sync()
+        o._query = (list(path._solver.assertions()), neg, 'canary')
+        o._witness = None
+        self.queue.append(o)
+        return o
+
+    def check_sat(self, oid, function, path, text=''):
+        """Vacuity guard: the assumptions of a contract must be satisfiable."""
+        o = self.new(oid, 'vacuity', function, text)
+        path._solver = None
+        path._sync()
+        o._query = (list(path._solver.assertions()), z3.BoolVal(True), 'vacuity')
+        o._witness = None
+        self.queue.append(o)
+        return o
+
+    # ---- discharge ---------------------------------------------------------------------------------------
+    def discharge_all(self, workers=None):
+        import json as _json
+        import select
+        import signal
+        workers = workers or min(14, (os.cpu_count() or 2))
+        pending = list(self.queue)
+        self.queue = []
+        running = {}     # pid -> (obligation, read_fd, deadline, t0)
+        hard = self.timeout_ms / 1000.0 * 3 + 20
+
+        def spawn(o):
+            r, w = os.pipe()
+            pid = os.fork()
+            if pid == 0:
+                try:
+                    os.close(r)
+                    res = self._solve_child(o)
+                    os.write(w, _json.dumps(res, default=str).encode())
+                except BaseException as e:  # noqa
+                    try:
+                        os.write(w, _json.dumps({'status': ERROR, 'backend': 'z3',
+                                                 'detail': f'{type(e).__name__}: {e}'}).encode())
+                    except Exception:
+                        pass
+                finally:
+                    os._exit(0)
+            os.close(w)
+            running[pid] = (o, r, time.time() + hard, time.time())
+
+        def reap(pid, killed=False):
+            o, r, _, t0 = running.pop(pid)
+            data = b''
+            try:
+                while True:
+                    chunk = os.read(r, 1 << 16)
+                    if not chunk:
+                        break
+                    data += chunk
+            except Exception:
+                pass
+            os.close(r)
+            o.seconds = time.time() - t0
+            if killed or not data:
+                self.settle(o, UNDECIDED if o._query[2] == 'prove' else ERROR, 'z3',
+                            detail='solver process exceeded the hard time limit' if killed else
+                            'solver process died without a result')
+                return
+            res = _json.loads(data.decode())
+            o.replay = res.get('replay')
+            o.smt_size = res.get('smt_chars', 0)
+            for k, v in (res.get('backend_s') or {}).items():
+                self.backend_s[k] = self.backend_s.get(k, 0.0) + v
+            self.settle(o, res['status'], res.get('backend', 'z3'), res.get('detail', ''), res.get('model'))
+
+        while pending or running:
+            while pending and len(running) < workers:
+                spawn(pending.pop(0))
+            # wait for any child
+            time.sleep(0.005)
+            for pid in list(running):
+                o, r, deadline, t0 = running[pid]
+                try:
+                    wpid, st = os.waitpid(pid, os.WNOHANG)
+                except ChildProcessError:
+                    wpid = pid
+                if wpid == pid:
+                    reap(pid)
+                elif time.time() > deadline:
+                    try:
+                        os.kill(pid, signal.SIGKILL)
+                        os.waitpid(pid, 0)
+                    except Exception:
+                        pass
+                    reap(pid, killed=True)
+
+    def _solve_child(self, o):
+        assertions, neg, mode = o._query
+        bs = {}
         s = z3.Solver()
-        for f in path._solver.assertions():
+        s.set('timeout', int(self.timeout_ms))
+        for f in assertions:
             s.add(f)
         s.add(neg)
+        t0 = time.time()
+        try:
+            r = s.check()
+        except z3.Z3Exception as e:
+            r = z3.unknown
+        bs['z3'] = time.time() - t0
+        size = 0
+        try:
+            size = sum(len(f.sexpr()) for f in assertions)
+        except Exception:
+            pass
+        out = {'backend': 'z3', 'backend_s': bs, 'smt_chars': size}
+        if mode == 'canary':
+            if r == z3.sat:
+                return dict(out, status=PROVED, detail='canary refuted as required')
+            return dict(out, status=ERROR, detail=f'canary NOT refuted ({r}) - engine vacuous?')
+        if mode == 'vacuity':
+            if r == z3.sat:
+                return dict(out, status=PROVED, detail='precondition satisfiable')
+            if r == z3.unsat:
+                return dict(out, status=ERROR, detail='precondition UNSATISFIABLE - contract vacuous')
+            return dict(out, status=PROVED, backend='z3', detail='satisfiability of the precondition not decided '
+                                                              'by the solver (unknown); not unsat')
+        if r == z3.unsat:
+            return dict(out, status=PROVED)
+        if r == z3.sat:
+            m = s.model()
+            rep = None
+            detail = 'counter-model found'
+            if o._witness is not None:
+                try:
+                    rep = o._witness(m)
+                except Exception as e:  # noqa
+                    detail = f'counter-model found; witness extraction failed: {type(e).__name__}: {e}'
+            return dict(out, status=REFUTED, model=model_to_dict(m), replay=rep, detail=detail)
+        reason = ''
+        try:
+            reason = s.reason_unknown()
+        except Exception:
+            pass
         smt = s.to_smt2()
+        r2, be, secs, txt = self.second_opinion_smt(smt)
+        bs[be] = bs.get(be, 0.0) + secs
+        if r2 == 'unsat':
+            return dict(out, status=PROVED, backend=be)
+        if r2 == 'sat':
+            return dict(out, status=REFUTED, backend=be, detail='counter-model found by second solver\n' + txt[:400])
+        return dict(out, status=UNDECIDED, detail=f'z3: unknown ({reason}); second solver: {r2}')
+
+    def second_opinion_smt(self, smt):
         res = ('unknown', 'none', 0.0, '')
         for (name, cmd) in (('cvc5', ['/usr/bin/cvc5', '--strings-exp', f'--tlimit={self.timeout_ms}']),
                             ('z3-4.8.12', ['/usr/bin/z3', f'-T:{max(1, self.timeout_ms // 1000)}'])):
@@ -138,32 +286,10 @@ class Ctx:
             finally:
                 os.unlink(fn)
             secs = time.time() - t0
-            self.backend_s[name] = self.backend_s.get(name, 0.0) + secs
             if verdict in ('sat', 'unsat'):
                 return (verdict, name, secs, '\n'.join(out))
             res = (verdict if verdict in ('unknown', 'timeout') else 'unknown', name, secs, '\n'.join(out)[:300])
         return res
-
-    def expect_refuted(self, oid, function, path, goal, text=''):
-        """Canary: a deliberately false statement must be refuted, otherwise the engine is vacuous."""
-        o = self.new(oid, 'canary', function, text)
-        path._solver = None
-        path.timeout_ms = self.timeout_ms
-        r = path.check(z3.Not(goal)) if goal is not True else z3.unsat
-        if r == z3.sat:
-            return self.settle(o, PROVED, 'z3', detail='canary refuted as required')
-        return self.settle(o, ERROR, 'z3', detail=f'canary NOT refuted ({r}) - engine vacuous?')
-
-    def check_sat(self, oid, function, path, text=''):
-        """Vacuity guard: the assumptions of a contract must be satisfiable."""
-        o = self.new(oid, 'vacuity', function, text)
-        path._solver = None
-        r = path.check()
-        if r == z3.sat:
-            return self.settle(o, PROVED, 'z3', detail='precondition satisfiable')
-        if r == z3.unsat:
-            return self.settle(o, ERROR, 'z3', detail='precondition UNSATISFIABLE - contract vacuous')
-        return self.settle(o, UNDECIDED, 'z3', detail='precondition satisfiability unknown')
 
     # ---- summary ------------------------------------------------------------------------------------------
     def counts(self):
@@ -171,6 +297,88 @@ class Ctx:
         for o in self.obligations:
             c[o.status] = c.get(o.status, 0) + 1
         return c
+
+
+def refines(ctx, oid, function, impl, spec, make_args, witness=None, max_paths=4000, text=''):
+    """Obligations for  `impl` refines `spec`  (both callables(interp, path, args, kwargs)):
+    on every jointly feasible pair of paths the outcome kinds agree, returned values are equal
+    (compare.equal), raised exception classes agree.
+
+    make_args(path) -> (impl_args, spec_args)  builds the symbolic inputs (and assumes the precondition)."""
+    from .compare import equal, Mismatch
+    from .interp import TerminationViolation
+    from .path import explore
+    interp = ctx.interp
+    n_obl = 0
+
+    def run_impl(p):
+        ia, sa = make_args(p)
+        p.spec_args = sa
+        p.impl_args = ia
+        try:
+            return ('return', impl(interp, p, list(ia), {}))
+        except RaiseSignal as rs:
+            return ('raise', rs.exc)
+        except TerminationViolation as tv:
+            return ('diverge', tv)
+
+    results = explore(Path(timeout_ms=4000), run_impl, max_paths)
+    for i, (p, (kind, val)) in enumerate(results):
+        w = (lambda m, p=p: witness(m, p.impl_args)) if witness else None
+        if kind == 'diverge':
+            ctx.prove(f'{oid}:path{i}:decreases', 'decreases', function, p, False,
+                      f'termination: {val}', witness=w)
+            continue
+
+        def run_spec(q, p=p):
+            interp.ghost_depth += 1
+            try:
+                return ('return', spec(interp, q, list(p.spec_args), {}))
+            except RaiseSignal as rs:
+                return ('raise', rs.exc)
+            finally:
+                interp.ghost_depth -= 1
+
+        for j, (q, (skind, sval)) in enumerate(explore(p, run_spec, max_paths)):
+            tag = f'{oid}:path{i}.{j}'
+            if kind != skind:
+                ctx.prove(f'{tag}:outcome', 'raises' if 'raise' in (kind, skind) else 'ensures', function, q, False,
+                          f'implementation {kind}s ({_exc_name(val) if kind == "raise" else "normally"}) where the '
+                          f'contract says {skind} ({_exc_name(sval) if skind == "raise" else "normal return"})',
+                          witness=w)
+                continue
+            if kind == 'raise':
+                if not _same_exc(val, sval):
+                    ctx.prove(f'{tag}:raises', 'raises', function, q, False,
+                              f'raises {_exc_name(val)} where the contract says {_exc_name(sval)}', witness=w)
+                else:
+                    o = ctx.new(f'{tag}:raises', 'raises', function, f'raises {_exc_name(val)} as specified')
+                    ctx.settle(o, PROVED, 'syntactic')
+                continue
+            try:
+                leaves = equal(interp, q, val, sval)
+            except Mismatch as mm:
+                ctx.prove(f'{tag}:ensures', 'ensures', function, q, False,
+                          f'result differs structurally from the specification: {mm}', witness=w)
+                continue
+            if not leaves:
+                o = ctx.new(f'{tag}:ensures', 'ensures', function, text or 'result == specification (syntactically)')
+                ctx.settle(o, PROVED, 'syntactic')
+            for k, lf in enumerate(leaves):
+                ctx.prove(f'{tag}:ensures.{k}', 'ensures', function, lf.path, lf.goal,
+                          (text or 'result == specification') + f' @ {lf.where}', witness=w)
+    return results
+
+
+def _exc_name(e):
+    try:
+        return e.cls.name
+    except Exception:
+        return str(e)
+
+
+def _same_exc(a, b):
+    return a.cls is b.cls
 
 
 def model_to_dict(m, limit=40):
